@@ -71,14 +71,14 @@ Definition skipped (skip : option nat) (d : nat) : bool :=
   match skip with Some k => Nat.ltb k d | None => false end.
 
 (** * Receive over the state of Receiver.v *)
-Record rstate := mkR {
+Record prstate := mkPR {
   r_recv : receiver; r_reads : list read; r_ok : bool; r_icpt : list frame; r_has_icpt : bool }.
 
 Inductive rout :=
 | RDone (x : scan_result * receiver * list read * list frame)
 | RStuck.   (* the program leaves the node set of Receive / falls off its end *)
 
-Fixpoint rexec (p : prog) (skip : option nat) (st : rstate) : rout :=
+Fixpoint rexec (p : prog) (skip : option nat) (st : prstate) : rout :=
   match p with
   | [] => RStuck
   | (d, n) :: p' =>
@@ -88,22 +88,22 @@ Fixpoint rexec (p : prog) (skip : option nat) (st : rstate) : rout :=
       | NAct RScan =>
           match scan scan_frames (rsc (r_recv st)) (r_reads st) with
           | (STrue, s', rs') =>
-              rexec p' None (mkR (mkReceiver s' (rframe (r_recv st))) rs' true (r_icpt st) (r_has_icpt st))
+              rexec p' None (mkPR (mkReceiver s' (rframe (r_recv st))) rs' true (r_icpt st) (r_has_icpt st))
           | (SFalse, s', rs') =>
-              rexec p' None (mkR (mkReceiver s' (rframe (r_recv st))) rs' false (r_icpt st) (r_has_icpt st))
+              rexec p' None (mkPR (mkReceiver s' (rframe (r_recv st))) rs' false (r_icpt st) (r_has_icpt st))
           | (other, s', rs') =>     (* Scan panicked: nothing after it runs *)
               RDone (other, mkReceiver s' (rframe (r_recv st)), rs', r_icpt st)
           end
       | NAct RResetFrame =>
-          rexec p' None (mkR (mkReceiver (rsc (r_recv st)) zero_scframe) (r_reads st) (r_ok st) (r_icpt st) (r_has_icpt st))
+          rexec p' None (mkPR (mkReceiver (rsc (r_recv st)) zero_scframe) (r_reads st) (r_ok st) (r_icpt st) (r_has_icpt st))
       | NAct RUnmarshalToken =>
           match unmarshal16 (match stoken (rsc (r_recv st)) with Some t => t | None => [] end) with
           | Some sc =>
-              rexec p' None (mkR (mkReceiver (rsc (r_recv st)) sc) (r_reads st) (r_ok st) (r_icpt st) (r_has_icpt st))
+              rexec p' None (mkPR (mkReceiver (rsc (r_recv st)) sc) (r_reads st) (r_ok st) (r_icpt st) (r_has_icpt st))
           | None => RDone (SPanic, r_recv st, r_reads st, r_icpt st)   (* index out of range *)
           end
       | NAct RInterceptDecoded =>
-          rexec p' None (mkR (r_recv st) (r_reads st) (r_ok st)
+          rexec p' None (mkPR (r_recv st) (r_reads st) (r_ok st)
                              (r_icpt st ++ [decode_frame (rframe (r_recv st))]) (r_has_icpt st))
       | NIf COk => rexec p' (if r_ok st then None else Some d) st
       | NIf CHasInterceptor => rexec p' (if r_has_icpt st then None else Some d) st
@@ -114,10 +114,10 @@ Fixpoint rexec (p : prog) (skip : option nat) (st : rstate) : rout :=
   end.
 
 Definition run_receive (p : prog) (icpt : bool) (r : receiver) (rs : list read) : rout :=
-  rexec p None (mkR r rs false [] icpt).
+  rexec p None (mkPR r rs false [] icpt).
 
 (** * TransmitFrame over the answers / events of Transmitter.v *)
-Record tstate := mkT {
+Record ptstate := mkPT {
   t_frame : frame; t_has_deadline : bool; t_ans : conn_answers; t_has_icpt : bool;
   t_scf : scframe; t_buf : list Z; t_err : option error; t_events : list tx_event }.
 
@@ -125,11 +125,11 @@ Inductive tout :=
 | TDone (x : list tx_event * tx_result)
 | TStuck.
 
-Definition t_set_scf st sc := mkT (t_frame st) (t_has_deadline st) (t_ans st) (t_has_icpt st) sc (t_buf st) (t_err st) (t_events st).
-Definition t_set_buf st b := mkT (t_frame st) (t_has_deadline st) (t_ans st) (t_has_icpt st) (t_scf st) b (t_err st) (t_events st).
-Definition t_call st ev e := mkT (t_frame st) (t_has_deadline st) (t_ans st) (t_has_icpt st) (t_scf st) (t_buf st) e (t_events st ++ [ev]).
+Definition t_set_scf st sc := mkPT (t_frame st) (t_has_deadline st) (t_ans st) (t_has_icpt st) sc (t_buf st) (t_err st) (t_events st).
+Definition t_set_buf st b := mkPT (t_frame st) (t_has_deadline st) (t_ans st) (t_has_icpt st) (t_scf st) b (t_err st) (t_events st).
+Definition t_call st ev e := mkPT (t_frame st) (t_has_deadline st) (t_ans st) (t_has_icpt st) (t_scf st) (t_buf st) e (t_events st ++ [ev]).
 
-Fixpoint texec (p : prog) (skip : option nat) (st : tstate) : tout :=
+Fixpoint texec (p : prog) (skip : option nat) (st : ptstate) : tout :=
   match p with
   | [] => TStuck
   | (d, n) :: p' =>
@@ -164,7 +164,7 @@ Fixpoint texec (p : prog) (skip : option nat) (st : tstate) : tout :=
   end.
 
 Definition run_transmit (p : prog) (icpt dl : bool) (ans : conn_answers) (f : frame) : tout :=
-  texec p None (mkT f dl ans icpt zero_scframe [] None []).
+  texec p None (mkPT f dl ans icpt zero_scframe [] None []).
 
 (** node-by-node comparison of an extracted program with a reference *)
 Fixpoint first_diff {A} (eqb : A -> A -> bool) (p q : list A) : option nat :=
